@@ -30,7 +30,7 @@ ASSUME = ["TLC and the CommunityModules Json reader are trusted",
           "rule itself is checked for all interleavings on the model of the code (MemDBMC.tla)"]
 
 TIERS = {  # seq programs, steps; conc traces, writer calls per epoch, epochs
-    "quick": dict(seq=(40, 500), conc=(24, 50, 3), race=0),
+    "quick": dict(seq=(48, 500), conc=(40, 50, 3), race=0),
     "thorough": dict(seq=(240, 800), conc=(160, 90, 4), race=32),
 }
 MC = {
